@@ -7,6 +7,14 @@ ids = [p['id'] for p in props]
 TECH = "contract-based deductive verification: requires/ensures/invariant contracts on the real functions, verification conditions generated from go/ssa by vcgo, discharged by z3/cvc5"
 
 claimed = {
+ "C01": dict(
+   text="Proof of the size chain for every output size, template, menu and index: Sizer.Check is exact (fits iff outputSize == 0 or len <= outputSize), Page.render returns only strings that passed it, Page.Render and Vm.Render return only render's result (or \"\"), NewSizer/setupVm give the VM's sizer exactly Config.OutputSize, and Engine.Flush's written-byte counter (ghost) stays within OutputSize.",
+   note="Known finding H10 (exit value appended after the checked page). RenderTemplate, Menu.Render and Page.prepare have assumed frame-only contracts (their output is arbitrary and checked afterwards); io.WriteString assumed to write at most len(s). Verified for pages with a menu object (always the case under the VM).",
+   ref="4/C01"),
+ "C17": dict(
+   text="Proof for the initialised engine that a request refused by the format check (counted by a ghost counter on ValidInput) or by the length limit returns an error with position, flags, cache levels, pending code, stored input and external/code call counters unchanged, provided the previous output was delivered (idle engine); Flush without a preceding Exec returns ErrFlushNoExec and changes nothing.",
+   note="First request of an engine (persister load, entry function before validation) is covered only by assumed setup contracts. ValidInput's regex matching is assumed to be a pure function of the input. Trusted: vcgo translation, solvers.",
+   ref="4/C17"),
  "C03": dict(
    text="Proof that INCMP routing follows the statement for every flag/input/selector combination: runInCmp's contract (ignored once INMATCH is set, READIN set on a miss, exactly one applyTarget on a hit, IndexError on '<' at index 0 counts as no match), runDeadCheck's contract (unmatched input becomes MOVE _catch with an InvalidInputError carrying that input), and a call-site assertion inside Run's loop that INMATCH is clear whenever execution resumes from a HALT. Induction over instructions is Run's loop invariant.",
    note="Known finding H19 (duplicate selector moves twice) is reported, not hidden. Premises assumed at call sites: no move into the current node. Resource callbacks havoc only their results. Trusted: regex meaning axioms, decoder contracts, vcgo translation, solvers.",
